@@ -529,6 +529,17 @@ pub fn check(engine: &dyn Engine, prop: &str, tier: &str) -> i32 {
     }
     let root = verif_root();
     let _ = std::fs::create_dir_all(format!("{root}/replays"));
+    // replay files of earlier runs of this check are stale now
+    if std::env::var_os("VERIF_KEEP_REPLAYS").is_some() {
+        // a second engine of the same check: keep what the first one wrote
+    } else if let Ok(rd) = std::fs::read_dir(format!("{root}/replays")) {
+        for e in rd.flatten() {
+            let name = e.file_name().to_string_lossy().to_string();
+            if name.starts_with(&format!("{prop}-")) && name.ends_with(".json") {
+                let _ = std::fs::remove_file(e.path());
+            }
+        }
+    }
     let mut confirmed = 0usize;
     let mut unconfirmed = 0usize;
     for (sig, f) in fresh.iter().take(12) {
